@@ -70,7 +70,7 @@ def main():
             for q in subformulas(phi):
                 pass
             if "histT" in ops_of(phi):
-                phi = un("histT", phi0, 0, 2); phi["aw"] = "0"; phi["bw"] = str(2 * pnum); phi["bu"] = punit
+                phi = un("histT", phi0, 0, 2); phi["at"] = "0"; phi["bt"] = str(2 * pnum); phi["bu"] = punit
                 o["phi_text"] = phi
                 o["text"] = "out = " + to_text(phi, S)
                 o["phi"] = un("histT", phi0, 0, 2)
